@@ -82,13 +82,15 @@ def _extra():
         S([P('p0', [1])], [[6, True]], emit_ticks=3),
         S([P('p0', [2]), P('p1', [3])], [[7, False], [5, True]], emit_ticks=4, unit=0.25),
         # a branch-level flag and more specific flags below it in the same `store_schema` dictionary
+        # a zero-length forced call when everybody is complete: no second row for that time
+        S([P('p0', [1])], [[2, True], [0, True], [1, True]]),
         S([P('p0', [1]), P('p1', [2])], [[4, True]], noemit=['x0'], emit_via='mixed_on'),
         S([P('p0', [1]), P('p1', [2])], [[4, True]], noemit=['x0', 'tok_p1'], emit_via='mixed_off'),
     ]
 
 
 install(globals(), 'C12', view, oracle,
-        gen_opts=dict(emit_flags=True, emit_variants=True),
+        gen_opts=dict(emit_flags=True, emit_variants=True, zero_calls='after_forced'),
         budget={'quick': 250, 'thorough': 6000},
         rule='scheduler scenarios × emit-flag assignments (each variable flagged or not) × emit_step ∈ {1 time '
              'unit, 1–5 ticks} × steps; a spy Emitter registered through the emitter registry records every emit '
